@@ -3,12 +3,14 @@
 (* with content from {absent, empty, c1, c2}, applying the reference creator's*)
 (* patch to A yields exactly B's non-empty files.                            *)
 EXTENDS ZiPatch, TLC, Json
-CONSTANTS Conts, Emit
+CONSTANTS Conts, Paths, Emit
 MCEmptyHead(n) == <<100 + n>>
-Conts3 == {<<>>, <<1>>, <<2, 3>>}
-Conts2 == {<<>>, <<1>>}
+\* <<1>> and <<4>> have the same length: a change that keeps the size
+Conts3 == {<<>>, <<1>>, <<4>>}
+Conts4 == {<<>>, <<1>>, <<4>>, <<2, 3>>}
 Paths4 == {<<102>>, <<100,47,103>>, <<100,47,101,47,104>>, <<105>>}     \* f, d/g, d/e/h, i
-TreesOver == UNION {[S -> Conts] : S \in SUBSET Paths4}
+Paths3 == {<<102>>, <<100,47,103>>, <<100,47,101,47,104>>}
+TreesOver == UNION {[S -> Conts] : S \in SUBSET Paths}
 VARIABLE pair
 InitPair == pair \in TreesOver \X TreesOver
 NextPair == UNCHANGED pair
